@@ -89,36 +89,59 @@ Proof.
     rewrite dft1_zero. csimp. ring.
 Qed.
 
-Theorem renorm_defined_iff (K img : arr CS) : 0 < nr img -> 0 < nc img -> get K 0 0 = k1 -> nonneg_image img ->
-  (@renorm_checked CS Cis0 Cinv (@blur CS Cabs K img) img = None
-   <-> forall i j, 0 <= i < nr img -> 0 <= j < nc img -> get img i j = RtoC 0)
-  /\ (@renorm_checked CS Cis0 Cinv (@blur CS Cabs K img) img <> None ->
-      @renorm_checked CS Cis0 Cinv (@blur CS Cabs K img) img = Some (@renorm CS Cinv (@blur CS Cabs K img) img)
-      /\ asum (@renorm CS Cinv (@blur CS Cabs K img) img) = asum img).
+Definition zero_image (img : arr CS) : Prop :=
+  forall i j, 0 <= i < nr img -> 0 <= j < nc img -> get img i j = RtoC 0.
+
+Lemma nonneg_total_zero (img : arr CS) : nonneg_image img -> asum img = RtoC 0 -> zero_image img.
+Proof. intros Hnn Ez i j Hi Hj. unfold asum in Ez.
+  pose proof (Cnn_sumZ_zero (nr img) _ (fun i' Hi' => Cnn_sumZ (nc img) _ (fun j' Hj' => Hnn i' j' Hi' Hj')) Ez i Hi) as Er.
+  exact (Cnn_sumZ_zero (nc img) _ (fun j' Hj' => Hnn i j' Hi Hj') Er j Hj). Qed.
+
+Lemma zero_image_total (img : arr CS) : zero_image img -> asum img = RtoC 0.
+Proof. intros Hz. unfold asum. change (RtoC 0) with (@k0 CS). apply (sumZ_zero_ext CS CS_ring). intros i Hi.
+  apply (sumZ_zero_ext CS CS_ring). intros j Hj. now apply Hz. Qed.
+
+(* the weight of the blurred frame vanishes exactly on the all-zero frame *)
+Lemma blur_weight_zero_iff (K img : arr CS) : 0 < nr img -> 0 < nc img -> get K 0 0 = k1 -> nonneg_image img ->
+  Cis0 (asum (@blur CS Cabs K img)) = true <-> zero_image img.
 Proof.
-  intros Hm Hn HK Hnn. unfold renorm_checked.
-  assert (Hiff : Cis0 (asum (@blur CS Cabs K img)) = true
-                 <-> forall i j, 0 <= i < nr img -> 0 <= j < nc img -> get img i j = RtoC 0).
-  { rewrite Cis0_true. split.
-    - intros E. destruct (asum_abs_ge (conv K img)) as [r [Hr Hle]].
-      unfold blur in E. rewrite Hr in E. apply RtoC_inj in E. subst r.
-      rewrite conv_total in Hle by assumption.
-      assert (Ez : asum img = RtoC 0). { apply Cmod_eq_0. pose proof (Cmod_ge_0 (asum img)). lra. }
-      intros i j Hi Hj. unfold asum in Ez.
-      pose proof (Cnn_sumZ_zero (nr img) _ (fun i' Hi' => Cnn_sumZ (nc img) _ (fun j' Hj' => Hnn i' j' Hi' Hj')) Ez i Hi) as Er.
-      exact (Cnn_sumZ_zero (nc img) _ (fun j' Hj' => Hnn i j' Hi Hj') Er j Hj).
-    - intros Hz. unfold asum. change (RtoC 0) with (@k0 CS). apply (sumZ_zero_ext CS CS_ring). intros i Hi.
-      apply (sumZ_zero_ext CS CS_ring). intros j Hj.
-      change (Cabs (get (conv K img) i j) = RtoC 0). rewrite conv_zero by assumption.
-      unfold Cabs. now rewrite Cmod_0. }
-  split.
-  - destruct (Cis0 (asum (@blur CS Cabs K img))) eqn:E.
-    + split; [intros _; now apply Hiff|reflexivity].
-    + split; [discriminate|]. intros Hz. apply Hiff in Hz. discriminate.
-  - destruct (Cis0 (asum (@blur CS Cabs K img))) eqn:E; [congruence|]. intros _. split; [reflexivity|].
-    apply blur_renorm_total; try assumption. intro Ez.
-    assert (false = true); [|discriminate].
-    apply Hiff. intros i j Hi Hj. unfold asum in Ez.
-    pose proof (Cnn_sumZ_zero (nr img) _ (fun i' Hi' => Cnn_sumZ (nc img) _ (fun j' Hj' => Hnn i' j' Hi' Hj')) Ez i Hi) as Er.
-    exact (Cnn_sumZ_zero (nc img) _ (fun j' Hj' => Hnn i j' Hi Hj') Er j Hj).
+  intros Hm Hn HK Hnn. rewrite Cis0_true. split.
+  - intros E. destruct (asum_abs_ge (conv K img)) as [r [Hr Hle]].
+    unfold blur in E. rewrite Hr in E. apply RtoC_inj in E. subst r.
+    rewrite conv_total in Hle by assumption.
+    apply nonneg_total_zero; [assumption|]. apply Cmod_eq_0. pose proof (Cmod_ge_0 (asum img)). lra.
+  - intros Hz. unfold asum. change (RtoC 0) with (@k0 CS). apply (sumZ_zero_ext CS CS_ring). intros i Hi.
+    apply (sumZ_zero_ext CS CS_ring). intros j Hj.
+    change (Cabs (get (conv K img) i j) = RtoC 0). rewrite conv_zero by assumption.
+    unfold Cabs. now rewrite Cmod_0.
+Qed.
+
+(* the renormalisation is total on non-negative inputs: zeros on the all-zero frame, otherwise the renormalised blur;
+   in both cases the total of the image is kept and no sample is negative *)
+Theorem renorm_checked_total (K img : arr CS) : 0 < nr img -> 0 < nc img -> get K 0 0 = k1 -> nonneg_image img ->
+  (zero_image img ->
+     @renorm_checked CS Cis0 Cinv (@blur CS Cabs K img) img = @blur CS Cabs K img
+     /\ forall i j, 0 <= i < nr img -> 0 <= j < nc img ->
+        get (@renorm_checked CS Cis0 Cinv (@blur CS Cabs K img) img) i j = RtoC 0)
+  /\ (~ zero_image img ->
+     @renorm_checked CS Cis0 Cinv (@blur CS Cabs K img) img = @renorm CS Cinv (@blur CS Cabs K img) img)
+  /\ asum (@renorm_checked CS Cis0 Cinv (@blur CS Cabs K img) img) = asum img
+  /\ (forall i j, 0 <= i < nr img -> 0 <= j < nc img ->
+        Cnn (get (@renorm_checked CS Cis0 Cinv (@blur CS Cabs K img) img) i j)).
+Proof.
+  intros Hm Hn HK Hnn. pose proof (blur_weight_zero_iff K img Hm Hn HK Hnn) as Hiff.
+  unfold renorm_checked. destruct (Cis0 (asum (@blur CS Cabs K img))) eqn:E.
+  - assert (Hz : zero_image img) by now apply Hiff.
+    split; [|split; [|split]].
+    + intros _. split; [reflexivity|]. intros i j Hi Hj.
+      change (Cabs (get (conv K img) i j) = RtoC 0). rewrite conv_zero by assumption. unfold Cabs. now rewrite Cmod_0.
+    + intros Hnz. contradiction.
+    + rewrite (zero_image_total img Hz). now apply Cis0_true.
+    + intros i j _ _. apply blur_nonneg.
+  - assert (Hnz : ~ zero_image img). { intros Hz. apply Hiff in Hz. discriminate. }
+    split; [|split; [|split]].
+    + intros Hz. contradiction.
+    + intros _. reflexivity.
+    + apply blur_renorm_total; try assumption. intro Ez. apply Hnz. now apply nonneg_total_zero.
+    + intros i j Hi Hj. apply renorm_nonneg; try assumption. intros; apply blur_nonneg.
 Qed.
